@@ -159,9 +159,14 @@ def match_table(ctx, rule, sites, table, panic_abort, prop_label, closure=None):
     for e in missing:
         miss_by[loose(e["key"])].append(e)
     new_by = defaultdict(list)
-    for s in unmatched_new:
-        new_by[loose(s.key)].append(s)
     still_new = []
+    from engine.runner import load_known
+    known_keys = set(k["key"] for k in load_known().get("findings", []))
+    for s in unmatched_new:
+        if "%s site %s" % (rule, s.key) in known_keys:
+            still_new.append(s)     # a recorded finding: reported under its own key, never re-matched as 'moved'
+        else:
+            new_by[loose(s.key)].append(s)
     for lk, ss in new_by.items():
         ms = miss_by.get(lk, [])
         if len(ss) <= len(ms):
